@@ -120,6 +120,77 @@ dump_chain(const char *tag, long key, long key2, TranslationTableOffset o, int b
 	}
 }
 
+/* Walk the byte code of a multipass / context rule the way the interpreters step through it: the program lies in
+ * charsdots[charslen .. charslen + dotslen) (the characters before it are only the literal the rule is chained by);
+ * the test part ends with pass_endTest, the action part is the rest.
+ * Emits  REF passrule <offset> <need>   for every rule reference embedded in the program (group and swap rules),
+ *        BND <value> <bound>            for everything that must stay below a bound: the end of each instruction within
+ *                                       its part, variable numbers below NUMVAR, and a final BND 0 1 / BND 1 1 telling
+ *                                       whether the test part is terminated and nothing unknown was met. */
+static void
+walk_program(const TranslationTableRule *r) {
+	const widechar *ins = &r->charsdots[r->charslen];
+	int ic = 0, end = r->dotslen, part, bad = 0;
+	for (part = 0; part < 2 && !bad; part++) {
+		int terminated = part == 1;
+		while (ic < end && !bad) {
+			int len = 1;
+			TranslationTableOffset ref = 0;
+			switch (ins[ic]) {
+			case pass_first: case pass_last: case pass_not: case pass_startReplace: case pass_endReplace: case pass_search:
+			case pass_omit: case pass_copy:
+				len = 1;
+				break;
+			case pass_lookback:
+				len = 2;
+				break;
+			case pass_string: case pass_dots:
+				len = (ic + 1 < end ? ins[ic + 1] : 0) + 2;
+				break;
+			case pass_attributes:
+				len = 7;
+				break;
+			case pass_groupstart: case pass_groupend: case pass_groupreplace:
+				len = 3;
+				if (ic + 2 < end) ref = ((TranslationTableOffset)ins[ic + 1] << 16) | ins[ic + 2];
+				break;
+			case pass_swap:
+				len = part == 0 ? 5 : 3;
+				if (ic + 2 < end) ref = ((TranslationTableOffset)ins[ic + 1] << 16) | ins[ic + 2];
+				break;
+			case pass_eq: case pass_lt: case pass_gt: case pass_lteq: case pass_gteq:
+				len = 3;
+				if (ic + 1 < end) printf(" ; BND %d %d", (int)ins[ic + 1], NUMVAR);
+				break;
+			case pass_hyphen: case pass_plus:
+				len = 2;
+				if (ic + 1 < end) printf(" ; BND %d %d", (int)ins[ic + 1], NUMVAR);
+				break;
+			case pass_endTest:
+				len = 1;
+				if (part == 0) terminated = 1;
+				break;
+			default:
+				bad = 1;
+				if (getenv("H_IMAGE_DEBUG")) fprintf(stderr, "unknown instruction %d at %d (part %d) in rule %d opcode %d\n", ins[ic], ic, part, r->index, (int)r->opcode);
+				break;
+			}
+			if (bad) break;
+			printf(" ; BND %d %d", ic + len - 1, end); /* the whole instruction lies inside its part */
+			if (ref || ins[ic] == pass_groupstart || ins[ic] == pass_groupend || ins[ic] == pass_groupreplace || ins[ic] == pass_swap) {
+				if (valid_off(ref))
+					printf(" ; REF passrule %u %d", ref, rule_need((const TranslationTableRule *)&T->ruleArea[ref]));
+				else
+					printf(" ; REF passrule %u 999999999", ref);
+			}
+			ic += len;
+			if (part == 0 && terminated) break;
+		}
+		if (!terminated) bad = 1;
+	}
+	printf(" ; BND %d 1", bad ? 1 : 0);
+}
+
 static void
 dump(const char *tl, int ok) {
 	int k;
@@ -236,6 +307,7 @@ dump(const char *tl, int ok) {
 		{
 			const TranslationTableRule *r = (const TranslationTableRule *)&T->ruleArea[rules[k].off];
 			printf(" ; RU %u %d %d %d %d %d", rules[k].off, (int)r->opcode, r->charslen, r->dotslen, rules[k].nofor, rules[k].noback);
+			if (r->opcode >= CTO_Context && r->opcode <= CTO_Pass4) walk_program(r);
 		}
 	}
 	printf("\n");
